@@ -29,3 +29,14 @@ package utils
 //@   at-return {C02} [every-header-line-is-visited] when err == nil :: ensures called("fasthttp.RequestHeader.VisitAll")
 //@ func createPresignedHttpRequestFromCtx
 //@   at-return {C02} [every-header-line-is-visited] when err == nil :: ensures called("fasthttp.RequestHeader.VisitAll")
+
+// ---- C16: bucket names -------------------------------------------------------------------------
+// A name is accepted only inside the length window and only if the name expression matched and the
+// IP-address expression did not (what the two expressions accept is outside the verifier's reach).
+//@ func IsValidBucketName
+//@   pure
+//@   ensures {C16} [length-and-both-expressions] ret0 ==> 3 <= len(bucket) && len(bucket) <= 63 && bucketNameRegexp.MatchString(bucket) && !bucketNameIpRegexp.MatchString(bucket)
+// the S3 naming rules, stated over the bytes of the name (independent of how they are checked)
+//@   ensures {C16} [s3-naming-rules] ret0 ==> 3 <= len(bucket) && len(bucket) <= 63 && lowerAlnum(bucket[0]) && lowerAlnum(bucket[len(bucket) - 1]) \
+//@        && (forall i int :: 0 <= i && i < len(bucket) ==> lowerAlnum(bucket[i]) || bucket[i] == '.' || bucket[i] == '-')
+//@   ensures {C16} [no-adjacent-periods] ret0 ==> !strings.Contains(bucket, "..")
